@@ -42,12 +42,12 @@ CLAIMED = {
    category="exploration", design_ref="DESIGN.md §4 C20, §9.6",
    technique="deterministic simulation of call sequences over the C interface regenerated from the current tree (one generated thunk per entry point), with fault injection in forked branches: k-th allocation fails inside the entry point, simulated ppl_set_timeout expiry, deterministic (weight) timeout, failing and short in-memory streams; LeakSanitizer reachability as leak oracle",
    text="Seeded search over call sequences and argument values (valid, wrong-dimension, huge-dimension, aliased, null-optional, garbage streams). Judged for every call without per-function knowledge: no C++ exception crosses the boundary, the return value is non-negative or a documented error code, the registered handler runs exactly once with that code iff the call failed, output handles are written iff the call succeeded, handles passed as const denote the same value afterwards, every handle is deletable exactly once, nothing is unreachable at teardown; with an injected fault the documented code (PPL_ERROR_OUT_OF_MEMORY, PPL_TIMEOUT_EXCEPTION) is returned, the timeout can be reset and the call repeated, and all handles remain deletable. A clean batch is evidence, not proof.",
-   note="Generic wrapper laws, not result-by-result comparison with the C++ operation (the C++ operations themselves are covered by C01-C15 on the same library objects). 1812 of 1986 prototypes have thunks; iterators, PIP tree views and protocol functions are excluded from random calls (listed by tools/gen_capi_thunks.py). Three leaks inside gmpxx are listed as known findings."),
+   note="Generic wrapper laws, not result-by-result comparison with the C++ operation (the C++ operations themselves are covered by C01-C15 on the same library objects). 1812 of 1986 prototypes have thunks; iterators, PIP tree views and protocol functions are excluded from random calls (listed by tools/gen_capi_thunks.py). Four leak families inside gmpxx are listed as known findings."),
  "C04": dict(
    category="exploration", design_ref="DESIGN.md §4 C04",
    technique="deterministic simulation of operation histories over rational BD shapes, octagons and boxes; refinement against an eager twin plus pointwise evaluation of each operator's definition",
    text="Seeded histories drive the closed/non-closed/reduced matrix states; after every operation OK() must hold, const operands keep their set, the twin (re-built from the object's own constraints) must give equal results and answers, and exact operators (adding native constraints, intersection, concatenation, embedding) must produce exactly the pointwise-defined set on the probe points while the others must not lose points; definite predicate answers are refuted by member points.",
-   note="Best-ness of upper bound / difference / constructors (smallest element) is judged only through the twin, not against LP suprema along the template directions (not built)."),
+   note="Best-ness of upper bounds and of the constructors from polyhedra is judged against LP suprema along the template directions; the relational transformers (bounded / generalized affine image and preimage, both overload families) and simplify_using_context_assign (meet-preserving enlargement) by witness and probe points. Two known findings pinned by existing tests (F40 octagon refine, F41 box simplification with an empty meet)."),
  "C05": dict(
    category="exploration", design_ref="DESIGN.md §4 C05",
    technique="deterministic simulation of operation histories over grids; refinement against an eager twin plus pointwise evaluation of each operator's definition",
@@ -77,7 +77,7 @@ CLAIMED = {
    category="exploration", design_ref="DESIGN.md §4 C08",
    technique="deterministic simulation of adversarial ascending chains with representation twins, certificate monitoring and the token protocol",
    text="Seeded ascending chains: every widening result contains the larger argument, equals the result on canonical twins of both arguments, strictly decreases the convergence certificate on every non-stationary step; with tokens the object is unchanged and a token is consumed exactly when plain widening would lose precision; limited/bounded extrapolations lie between the larger argument and the plain widening and keep the supplied constraints the larger argument satisfies.",
-   note="Powerset widenings are not driven. One known finding (NNC polyhedra that are not topologically closed: documented representation dependence of H79/BHRZ03)."),
+   note="Powerset widenings (BHZ03 with the H79 and BHRZ03 certificates, BGP99) are driven over chains whose previous iterate definitely entails the enlarged powerset: OK(), covering of the larger argument and - for BHZ03 - stabilisation in the ordering of the operator's certificate; representation independence is not judged for powersets. The two compare() overloads of the certificate classes must agree. One known finding (NNC polyhedra that are not topologically closed: documented representation dependence of H79/BHRZ03; no current witness plan)."),
 }
 
 NOT_APPLICABLE = {
